@@ -223,7 +223,7 @@ func (c *Ctx) outputsTruncated() {
 						c.bad(key, ins.Pos(), "open flags are not a constant: not recognised")
 						continue
 					}
-					fl := k.Int64()
+					fl := constInt64(k)
 					const oWRONLY, oRDWR, oCREATE, oEXCL, oTRUNC, oAPPEND = 0x1, 0x2, 0x40, 0x80, 0x200, 0x400
 					switch {
 					case fl&oCREATE == 0 || fl&(oWRONLY|oRDWR) == 0:
